@@ -196,10 +196,10 @@ impl Check for C13 {
         ]
     }
     fn cases(&self, tier: Tier) -> u64 {
-        tier.pick(3_000, 60_000)
+        tier.pick(9_000, 60_000)
     }
     fn min_nontrivial(&self, tier: Tier) -> u64 {
-        tier.pick(10_000, 200_000)
+        tier.pick(30_000, 200_000)
     }
     fn required_counters(&self, _tier: Tier) -> Vec<&'static str> {
         vec!["mut:content", "mut:signature", "proof:faulty", "expiry:judged", "historical:judged", "node:duty-events", "node:own-quote-forged", "node:history-steps", "node:late-older-quotes", "node:inconsistent-quotes", "node:peer-left-the-routing-table-between-quotes", "historical:later-quote-dated-ahead-of-our-clock"]
